@@ -411,7 +411,7 @@ func (w *world) doEndCheck(tr *vhlib.Trace) {
 // formations) hit the chain; at the end the twin comparison and the end-state check.
 func genContracts(t *testing.T, tr *vhlib.Trace, r *vhlib.Rand, n int) {
 	net := vhlib.Pick(r, "v2", "v2", "v2", "v1")
-	batch := vhlib.Pick(r, 1, 1, 7, 100)
+	batch := pickBatch(r)
 	w := newWorld(t, net, batch, false)
 	defer w.close()
 	w.vol = 8
@@ -420,7 +420,7 @@ func genContracts(t *testing.T, tr *vhlib.Trace, r *vhlib.Rand, n int) {
 	w.reset(tr)
 	w.doMine(tr, 8+r.Intn(5), "host", true)
 	w.doMine(tr, 6, "void", true)
-	deep := r.Chance(1, 4)   // scenarios in which formations may be disconnected
+	deep := r.Chance(1, 3)   // scenarios in which formations may be disconnected
 	censor := r.Chance(1, 3) // scenarios with blocks that ignore the host's pool
 	form := func() {
 		if net == "v1" {
@@ -460,13 +460,15 @@ func genContracts(t *testing.T, tr *vhlib.Trace, r *vhlib.Rand, n int) {
 		case x < 40 && reorgs < 6:
 			reorgs++
 			depth := 1 + r.Intn(4)
-			if deep && r.Chance(1, 3) {
+			if bd := w.batchDepth(r); deep && bd > 0 && w.batch <= 7 && r.Chance(1, 2) {
+				depth = bd // reverts-only batches, formations and revisions inside the reverted range
+			} else if deep && r.Chance(1, 3) {
 				depth = 3 + r.Intn(10)
 			} else if lim := w.safeDepth(); depth > lim {
 				depth = lim // keep every formation on the best chain
 			}
 			if depth >= 1 && w.windowReorgOK(deep) {
-				w.doReorg(tr, depth, depth+1+r.Intn(2), "void", r.Chance(2, 3))
+				w.doReorg(tr, depth, depth+1+r.Intn(2), "void", r.Chance(2, 3), stopPick(r))
 				// liveness hypothesis of C06: after a reorg the next block is mined from the host's pool
 				w.doMine(tr, 1, "host", true)
 			} else {
